@@ -36,7 +36,10 @@ Definition dec_input (i : val) : option (env * list hop_) :=
   | VL (VZ m :: VZ bsz :: hopv :: VL sc :: flow) =>
     match as_LB hopv, all_some (map dec_op sc), dec_flow flow with
     | Some hop, Some ops, Some (w, g) =>
-      if ((m =? 0) || (m =? 1) || (m =? 2)) && (0 <? bsz) then Some (mkE (m =? 1) bsz hop (m =? 2) 0 w g, ops) else None
+      (* method + 10: the same exchange, additionally repeated on several connections concurrently with other
+         header-rich responses (the harness reports a deviating observation if any); the model ignores the flag *)
+      let m' := if 10 <=? m then m - 10 else m in
+      if ((m' =? 0) || (m' =? 1) || (m' =? 2)) && (0 <? bsz) then Some (mkE (m' =? 1) bsz hop (m' =? 2) 0 w g, ops) else None
     | _, _, _ => None
     end
   | _ => None
